@@ -3,11 +3,24 @@
 // whole-table history check against an insertion-ordered reference map.
 #define private public
 #include <nstd/HashMap.hpp>
+#include <nstd/HashSet.hpp>
 #undef private
 #include "nvh.h"
 
+// the same harness serves HashSet<K> (-DNV_HASHSET): identical scheme without the value field
+#ifdef NV_HASHSET
+typedef HashSet<long> HM;
+typedef HashSet<long>::Item Item;
+typedef HashSet<long>::Iterator HIter;
+#define NV_VALUE_IS(i, v) true
+#define NV_DO_INSERT(m, pos, key, value) (m)->insert(pos, *(key))
+#else
 typedef HashMap<long, long> HM;
 typedef HashMap<long, long>::Item Item;
+typedef HashMap<long, long>::Iterator HIter;
+#define NV_VALUE_IS(i, v) ((i)->value == (v))
+#define NV_DO_INSERT(m, pos, key, value) (m)->insert(pos, *(key), *(value))
+#endif
 
 #ifndef NV_CAP
 #define NV_CAP 1 /* table capacity of the unit: 1 = every key collides */
@@ -18,12 +31,12 @@ usize g_woff, g_woff2, g_cmp_wit, g_cmp_k;
 // ---------------------------------------------------------------- one-call wrappers
 void* w_HashMap_insert(void* m, void* posItem, const long* key, const long* value)
 {
-  HashMap<long, long>::Iterator pos((Item*)posItem);
-  return ((HM*)m)->insert(pos, *key, *value).item;
+  HIter pos((Item*)posItem);
+  return NV_DO_INSERT((HM*)m, pos, key, value).item;
 }
 void* w_HashMap_remove(void* m, void* item)
 {
-  HashMap<long, long>::Iterator it((Item*)item);
+  HIter it((Item*)item);
   return ((HM*)m)->remove(it).item;
 }
 void* w_HashMap_find(const void* m, const long* key) { return ((const HM*)m)->find(*key).item; }
@@ -44,10 +57,10 @@ bool hm_insert_post(void* ret)
   HM* m = g_M;
   if(m->_end.item != &m->endItem || m->capacity != NV_CAP || m->data != g_data0) return false;
   if(g_present)
-    return r == g_hit && r->value == g_val && r->key == g_key && m->_size == g_size0 && m->freeItem == (g_freeAvail ? g_F : (Item*)0) &&
+    return r == g_hit && NV_VALUE_IS(r, g_val) && r->key == g_key && m->_size == g_size0 && m->freeItem == (g_freeAvail ? g_F : (Item*)0) &&
            g_P->prev == g_Q && m->data[bucket(g_key)] == g_c1 && m->_begin.item == g_begin0;
   if(g_freeAvail && r != g_F) return false;
-  if(r->key != g_key || r->value != g_val) return false;
+  if(r->key != g_key || !NV_VALUE_IS(r, g_val)) return false;
   if(r->cell != &m->data[bucket(g_key)] || m->data[bucket(g_key)] != r || r->nextCell != g_c1) return false; // bucket chain
   if(g_c1 && g_c1->cell != &r->nextCell) return false;                                                        // back pointer fixed up
   if(r->prev != g_Q || r->next != g_P || g_P->prev != r) return false;                                       // order list
@@ -76,11 +89,19 @@ bool hm_find_post(void* ret)
 void h_layout()
 {
   HM* z = 0; Item* i = 0;
+#ifdef NV_HASHSET
+  NV_CHECK((usize)&i->key == 0 && (usize)&i->cell == 8 && (usize)&i->nextCell == 16 &&
+           (usize)&i->prev == 24 && (usize)&i->next == 32 && sizeof(Item) == 40, "layout HashSet::Item == struct HItem_L");
+  NV_CHECK((usize)&z->_end == 0 && (usize)&z->_begin == 8 && (usize)&z->_size == 16 && (usize)&z->capacity == 24 &&
+           (usize)&z->data == 32 && (usize)&z->endItem == 40 && (usize)&z->freeItem == 80 && (usize)&z->blocks == 88,
+           "layout HashSet == struct HMap_L");
+#else
   NV_CHECK((usize)&i->key == 0 && (usize)&i->value == 8 && (usize)&i->cell == 16 && (usize)&i->nextCell == 24 &&
            (usize)&i->prev == 32 && (usize)&i->next == 40 && sizeof(Item) == 48, "layout HashMap::Item == struct HItem_L");
   NV_CHECK((usize)&z->_end == 0 && (usize)&z->_begin == 8 && (usize)&z->_size == 16 && (usize)&z->capacity == 24 &&
            (usize)&z->data == 32 && (usize)&z->endItem == 40 && (usize)&z->freeItem == 88 && (usize)&z->blocks == 96,
            "layout HashMap == struct HMap_L");
+#endif
 }
 
 static Item* raw_item() { return (Item*)new char[sizeof(Item)]; }
@@ -179,6 +200,7 @@ void h_find()
   if(!g_present && chainLen == 2) { NV_REACH("find.miss_after_collisions"); }
 }
 
+#ifndef NV_HASHSET
 // ================================================================ bounded history check
 // up to 3 appends (symbolic keys, capacity NV_CAP) then one removal by key; compared with an
 // insertion-ordered reference map kept in arrays
@@ -208,5 +230,7 @@ void h_b_history()
   NV_CHECK(ok, "HashMap history: insertion order, unique keys (value updated in place), lookups, removal == reference map");
   NV_REACH("b_history.return");
 }
+
+#endif
 
 } // extern "C"
